@@ -106,10 +106,102 @@ def model_xml(ch, ctx, free_param=False):
 <system>%s</system></nta>''' % (esc(g), esc(tparams), esc(tdecl), esc(sel), esc(sysl))
 
 
+def restricted_chains(run, thorough):
+    """free process parameters through instantiation chains: the `restricted` sets of the instances against the extracted propagation model,
+    and the verdict on the process against the specification (a free parameter occurs in the substituted array size)"""
+    rng = run.rng
+    stats = dict(chains=0, chain_levels=0, chains_rejected=0, chains_accepted=0)
+    drv, err = vlib.build_extract('restrict', 'Extract_Restrict.v', 'drv_restrict') if os.path.exists(os.path.join(vlib.COQ, 'theories', 'RestrictModel.vo')) else (None, 'RestrictModel.vo missing')
+    if drv is None:
+        run.tie_broken('extraction of the restricted-parameter model', err)
+        return stats
+    OPS = {0: '+', 1: '*'}
+    def show(b, names):
+        if b[0] == 'L': return str(b[1])
+        if b[0] == 'V': return names[b[1]]
+        return '(%s %s %s)' % (show(b[2][0], names), OPS[b[1]], show(b[2][1], names))
+    def tok(b):
+        if b[0] == 'L': return 'L %d' % b[1]
+        if b[0] == 'V': return 'V %d' % b[1]
+        return '( %d 2 %s %s' % (b[1], tok(b[2][0]), tok(b[2][1]))
+    def fvs(b):
+        return {b[1]} if b[0] == 'V' else (set() if b[0] == 'L' else fvs(b[2][0]) | fvs(b[2][1]))
+    def expr(syms, depth=0):
+        r = rng.random()
+        if not syms or r < 0.2 or depth > 1: return ('L', rng.randrange(1, 3))
+        if r < 0.65: return ('V', rng.choice(syms))
+        return ('O', rng.choice([0, 0, 1]), [expr(syms, depth + 1), expr(syms, depth + 1)])
+    cases, lines = [], []
+    for k in range(300 if thorough else 60):
+        names, nsym = {}, [0]
+        def sym(nm):
+            nsym[0] += 1; names[nsym[0]] = nm; return nsym[0]
+        tparams = [sym('p%d' % i) for i in range(rng.randrange(1, 4))]
+        size = expr(tparams)
+        if not fvs(size) and rng.random() < 0.7:
+            size = ('O', 0, [('V', rng.choice(tparams)), size])
+        other = expr(tparams)                                   # a second use of the parameters that restricts nothing
+        sysd, lvs, cur_name, cur = [], [], 'T', tparams
+        for lv in range(rng.randrange(1, 4)):
+            new = [sym('q%d_%d' % (lv, i)) for i in range(rng.randrange(1, 3))]
+            args = [expr(new) for _ in cur]
+            nm = 'Q%d' % lv
+            sysd.append('%s(%s) = %s(%s);' % (nm, ', '.join('const int[1,2] %s' % names[q] for q in new), cur_name, ', '.join(show(a, names) for a in args)))
+            lvs.append(list(zip(cur, args)))
+            cur_name, cur = nm, new
+        closed = rng.random() < 0.2
+        if closed:
+            sysd.append('P = %s(%s);' % (cur_name, ', '.join('1' for _ in cur))); sysd.append('system P;')
+        else:
+            sysd.append('system %s;' % cur_name)
+        xml = ('<?xml version="1.0" encoding="utf-8"?><nta><declaration>int g;</declaration><template><name>T</name><parameter>%s</parameter><declaration>int ctx_a[%s]; int ctx_v = %s;</declaration>'
+               '<location id="id0"/><init ref="id0"/></template><system>%s</system></nta>') % (', '.join('const int[1,2] %s' % names[p] for p in tparams), show(size, names), show(other, names), esc('\n'.join(sysd)))
+        cases.append(dict(xml=xml, names=names, lvs=lvs, free=[] if closed else cur, size=size))
+        lines.append('B %s R %d %s L %d %s' % (tok(size), len(fvs(size)), ' '.join(str(x) for x in sorted(fvs(size))), len(lvs), ' '.join('%d %s' % (len(l), ' '.join('%d %s' % (p, tok(a)) for p, a in l)) for l in lvs)))
+    out = subprocess.run([drv], input='\n'.join(lines) + '\n', stdout=subprocess.PIPE, universal_newlines=True).stdout.split('\n')
+    j = vlib.Job()
+    for k, c in enumerate(cases):
+        j.case('r%d' % k, fork=True).model('xml', c['xml']).dump('errors').dump('instances').end()
+    rr = vlib.run_jobs(j)
+    for k, c in enumerate(cases):
+        r = rr['r%d' % k]
+        if r['status'] != 'ok' or len(r['cmds']) < 3:
+            run.fail('type checker crashed on an instantiation chain (%s)' % r['status'], dict(xml=c['xml'], status=r['status']), shape='crash:chain')
+            continue
+        stats['chains'] += 1; stats['chain_levels'] += len(c['lvs'])
+        errs = [l.split('msg="')[1].split('"')[0] for l in r['cmds'][1][2] if l.startswith('error')]
+        other = [e for e in errs if 'Free_process_parameters' not in e]
+        if other:
+            run.tie_broken('a generated instantiation chain is rejected for another reason', dict(xml=c['xml'], errors=other[:2]))
+            continue
+        per = out[k].split(' ; ')
+        names = c['names']
+        real = {}
+        for l in r['cmds'][2][2]:
+            m = re.match(r'instance \d+ name=(\S+) .*restricted=\{(.*?)\}', l)
+            if m: real[m.group(1)] = set(x for x in m.group(2).split(',') if x)
+        for lv, rec in enumerate(per):
+            mR = set(names[int(x)] for x in rec.split('|')[0].split()[1:])
+            got = real.get('Q%d' % lv)
+            if got is not None and got != mR:
+                run.fail('instance Q%d: restricted parameters %s, the propagation model gives %s' % (lv, sorted(got), sorted(mR)), dict(xml=c['xml'], level=lv), shape='restricted-set')
+                break
+        F = set(int(x) for x in per[-1].split('|')[1].split()[1:])
+        must_reject = bool(F & set(c['free']))
+        rejected = bool(errs)
+        stats['chains_rejected' if rejected else 'chains_accepted'] += 1
+        if must_reject and not rejected:
+            run.fail('the array size of T depends on the free parameter %s of the process, and the model is accepted' % sorted(names[x] for x in F & set(c['free'])), dict(xml=c['xml']), shape='free-parameter-in-size:chain%d' % len(c['lvs']))
+        if rejected and not must_reject:
+            run.fail('no array size depends on a free parameter of the process, and the model is rejected: %s' % errs[0], dict(xml=c['xml'], errors=errs[:2]), shape='free-parameter-overrejected:chain%d' % len(c['lvs']))
+    return stats
+
+
 def check(run):
     thorough = run.tier == 'thorough'
     rng = run.rng
     pr = run.proofs()
+    rstats = restricted_chains(run, run.tier == 'thorough')
     drv, err = vlib.build_extract('effects', 'Extract_Effects.v', 'drv_effects') if os.path.exists(os.path.join(vlib.COQ, 'theories', 'Compute.vo')) else (None, 'Compute.vo missing')
     if drv is None:
         run.tie_broken('extraction of the effects model', err)
@@ -202,7 +294,7 @@ def check(run):
             mism.append(dict(case=name, note='twin without restricted use rejected', errors=errs[:2]))
     if mism:
         run.tie_broken('computability: model verdict / twins vs type checker', mism[:6] + [dict(total=len(mism))])
-    run.cov.update(functions_depends_compared=nfun, evaluations=len(cases) + len(extra) + nfun, distinct_nontrivial=len(cases), traces_validated_against_impl=len(cases),
+    run.cov.update(functions_depends_compared=nfun, **rstats, evaluations=len(cases) + len(extra) + nfun + rstats['chains'], distinct_nontrivial=len(cases), traces_validated_against_impl=len(cases),
                    rule='%d compile-time contexts x dependence chains of length 0..4 over {const initialiser, function return, function local, const function local, if condition, while condition, function argument, call chain} ending in a '
                         'mutable variable (must be rejected), a constant or a literal (must be accepted); verdict vs the extracted reads/ctc model; plus free / bound / partially instantiated process parameters in array sizes' % len(CONTEXTS),
                    samples=[dict(context=c[3], chain=c[1], base=c[0], expr=G.e_txt(c[2].expr, c[2].N)) for c in cases[5:8]], rejected=nrej, accepted=nacc, per_context_accept_reject=per_ctx)
